@@ -56,7 +56,9 @@ class Sched:
                 self.gate(i, frame.f_lineno)
             return local
         def glob(frame, event, arg):
-            if event == "call" and frame.f_code in CODES:
+            # every function of measured/__init__.py that runs while the object is being obtained (constructors, the arithmetic
+            # helpers and whatever they call), not only the ones known when this harness was written
+            if event == "call" and (frame.f_code in CODES or frame.f_code.co_filename in TARGET_FILES):
                 return local
             return None
         return glob
@@ -95,6 +97,16 @@ def make_call(cls, k):
     if cls == "Unit":
         f = {Meter: k}
         return lambda: Unit(IdentityPrefix, dict(f), Meter.dimension ** k), lambda: len([u for u in Unit._known.values() if getattr(u, "factors", None) == f and u.prefix is IdentityPrefix])
+    if cls == "UnitMulCompound":
+        from measured.si import Gram, Kelvin
+        a = Meter ** k * Gram; b = Second ** (k % 7 + 2) * Kelvin
+        f = dict(a.factors); f.update(b.factors)
+        return lambda: a * b, lambda: len([u for u in Unit._known.values() if getattr(u, "factors", None) == f and u.prefix is IdentityPrefix])
+    if cls == "UnitDivCompound":
+        from measured.si import Gram, Kelvin
+        a = Meter ** k * Gram; b = Second ** (k % 7 + 2) * Kelvin
+        f = dict(a.factors); f.update({u: -e for u, e in b.factors.items()})
+        return lambda: a / b, lambda: len([u for u in Unit._known.values() if getattr(u, "factors", None) == f and u.prefix is IdentityPrefix])
     if cls == "UnitMul":
         a = Meter ** k
         f = {Meter: k, Second: 1}
